@@ -4,6 +4,7 @@
   characterisations of the cluster loops in Lemmas/Cluster.lean.
 -/
 import RbModel.Lemmas.Cluster
+import RbModel.Lemmas.ClusterRelabel
 import RbModel.Lemmas.Flags
 
 namespace RbModel.Buf
@@ -71,6 +72,93 @@ theorem deleteGlyph_backward (b : Buf) (hwf : WF b) (hcur : b.idx < b.len) (ho :
   · unfold deleteGlyph
     simp only [get_ok hi, ok_bind, hn, if_false, pure_bind', Bool.not_false, Bool.true_and, hob, if_true, get_ok hp,
       hpsb, Bool.false_or, Bool.or_false, Bool.false_eq_true, hlt]
+
+/-! ### delete_glyphs_inplace, "Merge cluster backward" -/
+
+/-- one iteration of the loop of `delete_glyphs_inplace` on a glyph to delete that is alone in its cluster while the last
+    kept glyph (`info[j-1]`, `j` = write head) has a larger cluster value: the trailing run of kept glyphs is relabelled
+    with the DELETED glyph's mask, the write head stays -/
+theorem delin_step_backward (b : Buf) (i j fuel : Nat) (hi : i < b.len) (hlen : b.len ≤ b.info.length) (hji : j ≤ i)
+    (hj : j ≠ 0) (hdel : b.info[i].var2 = 1)
+    (hnext : ∀ h : i + 1 < b.info.length, i + 1 < b.len → b.info[i].cluster ≠ b.info[i + 1].cluster)
+    (hlt : b.info[i].cluster < (b.info[j - 1]'(by omega)).cluster) :
+    deleteGlyphsInplace.loop b i j (fuel + 1) =
+      (relabelOutBack b.info (b.info[j - 1]'(by omega)).cluster b.info[i].cluster b.info[i].mask j >>= fun info =>
+        deleteGlyphsInplace.loop (withInfo b info) (i + 1) j fuel) := by
+  have hil : i < b.info.length := by omega
+  have hjl : j - 1 < b.info.length := by omega
+  have hjb : (j != 0) = true := by simp [hj]
+  have hdb : (b.info[i].var2 == 1) = true := by simp [hdel]
+  rw [delin_loop_nf]
+  by_cases hn : i + 1 < b.len
+  · have hi1 : i + 1 < b.info.length := by omega
+    have hns := hnext hi1 hn
+    have hnsb : (b.info[i].cluster == b.info[i + 1].cluster) = false := by simpa using hns
+    simp only [hi, if_true, get_ok hil, ok_bind, hdb, hn, get_ok hi1, pure_bind', hnsb, Bool.false_eq_true, if_false, hjb,
+      get_ok hjl, hlt, bind_assoc]
+  · simp only [hi, if_true, get_ok hil, ok_bind, hdb, hn, if_false, pure_bind', Bool.false_eq_true, hjb, get_ok hjl, hlt,
+      bind_assoc]
+
+/-- the iteration above, spelled out with `relabelOutBack_spec` (statement explained at `C03_delin_backward_carries_flags`) -/
+theorem delin_backward_carries (b : Buf) (i j fuel : Nat) (x p : Info) (hi : i < b.len)
+    (hlen : b.len ≤ b.info.length) (hji : j ≤ i) (hj : j ≠ 0)
+    (hx : b.info[i]? = some x) (hdel : x.var2 = 1) (hp : b.info[j - 1]? = some p)
+    (hnext : ∀ nx, i + 1 < b.len → b.info[i + 1]? = some nx → nx.cluster ≠ x.cluster)
+    (hlt : x.cluster < p.cluster) :
+    ∃ info k, deleteGlyphsInplace.loop b i j (fuel + 1) = deleteGlyphsInplace.loop { b with info := info } (i + 1) j fuel ∧
+      k < j ∧ info.length = b.info.length ∧
+      (∀ q, k ≤ q → q < j → ∃ y, b.info[q]? = some y ∧ y.cluster = p.cluster ∧
+          info[q]? = some { y with cluster := x.cluster,
+                                   mask := (y.mask &&& (U32MAX - Flag.DEFINED)) ||| (x.mask &&& Flag.DEFINED) }) ∧
+      (∀ q, ¬ (k ≤ q ∧ q < j) → info[q]? = b.info[q]?) ∧
+      (k = 0 ∨ cl? b.info (k - 1) ≠ some p.cluster) ∧
+      (∀ q y', k ≤ q → q < j → info[q]? = some y' → y'.cluster = x.cluster ∧ Flags.exposed y' = Flags.exposed x) := by
+  have hil : i < b.info.length := by omega
+  have hjl : j - 1 < b.info.length := by omega
+  have hx' : b.info[i] = x := by
+    have := List.getElem?_eq_getElem hil; rw [this] at hx; exact Option.some.inj hx
+  have hp' : b.info[j - 1] = p := by
+    have := List.getElem?_eq_getElem hjl; rw [this] at hp; exact Option.some.inj hp
+  have hnx : ∀ h : i + 1 < b.info.length, i + 1 < b.len → b.info[i].cluster ≠ b.info[i + 1].cluster := by
+    intro h hn heq
+    exact hnext b.info[i + 1] hn (List.getElem?_eq_getElem h) (by rw [← heq, hx'])
+  have heq := delin_step_backward b i j fuel hi hlen hji hj (by rw [hx']; exact hdel) hnx (by rw [hx', hp']; exact hlt)
+  rw [hx', hp'] at heq
+  obtain ⟨o, k, hr, hk, holen, hoq, hrun, hstop⟩ :=
+    relabelOutBack_spec p.cluster x.cluster x.mask j b.info (by omega)
+  have hk1 : k < j := by
+    rcases hstop with h | h
+    · omega
+    · by_cases h2 : k < j
+      · exact h2
+      · exfalso
+        have : k = j := by omega
+        rw [this] at h
+        exact h (cl?_of_get hp)
+  have hin : ∀ q, k ≤ q → q < j → ∃ y, b.info[q]? = some y ∧ y.cluster = p.cluster ∧
+      o[q]? = some { y with cluster := x.cluster,
+                            mask := (y.mask &&& (U32MAX - Flag.DEFINED)) ||| (x.mask &&& Flag.DEFINED) } := by
+    intro q h1 h2
+    have hql : q < b.info.length := by omega
+    have hxq : b.info[q]? = some b.info[q] := List.getElem?_eq_getElem hql
+    have hcl : b.info[q].cluster = p.cluster := by
+      have := hrun q h1 h2
+      rw [cl?_lt hql] at this
+      exact Option.some.inj this
+    refine ⟨b.info[q], hxq, hcl, ?_⟩
+    rw [hoq q, if_pos ⟨h1, h2⟩, hxq]
+    simp only [Option.map_some]
+    rw [setCluster_ne _ _ _ (by rw [hcl]; omega)]
+  refine ⟨o, k, by rw [heq, hr]; rfl, hk1, holen, hin, ?_, hstop, ?_⟩
+  · intro q hq
+    rw [hoq q, if_neg hq]
+  · intro q y' h1 h2 hy'
+    obtain ⟨y, _, _, hoy⟩ := hin q h1 h2
+    rw [hoy] at hy'
+    have := Option.some.inj hy'
+    subst this
+    exact ⟨rfl, renamed_flags _ _⟩
+
 
 /-! ### merges: a renamed glyph carries no flag -/
 
